@@ -6,7 +6,7 @@ EXTENDS ResilienceImpl, Resilience_Scn
 VARIABLE pick
 
 MNext == INext /\ UNCHANGED pick
-IAllSpec   == pick \in AllScenarios /\ IInitAs(pick) /\ [][MNext]_<<allvars, pick>>
-IQuickSpec == pick \in QuickScenarios /\ IInitAs(pick) /\ [][MNext]_<<allvars, pick>>
-ISmallSpec == pick \in SmallScenarios /\ IInitAs(pick) /\ [][MNext]_<<allvars, pick>>
+IAllSpec   == InAll(pick) /\ IInitAs(pick) /\ [][MNext]_<<allvars, pick>>
+IQuickSpec == InQuick(pick) /\ IInitAs(pick) /\ [][MNext]_<<allvars, pick>>
+ISmallSpec == InSmall(pick) /\ IInitAs(pick) /\ [][MNext]_<<allvars, pick>>
 =============================================================================
